@@ -214,7 +214,10 @@ def intron_path_case(rng, small=False):
 # chromosome names for the natural merge order
 
 CHR_POOL = ["chr1", "chr2", "chr10", "chr11", "chr20", "chrX", "chrY", "chrM", "chr1_random", "chrUn_KI270302v1",
-            "1", "2", "10", "X", "MT", "scaffold_12", "scaffold_3", "Chr3", "chr03", "contig7b", "2L", "2R", "a", "B"]
+            "1", "2", "10", "X", "MT", "scaffold_12", "scaffold_3", "Chr3", "chr03", "contig7b", "2L", "2R", "a", "B",
+            # a reference name may start with '#' (legal first character in the SAM specification): every record of the
+            # per-chromosome GTF / BED of such a contig starts with '#'
+            "#c1", "#2", "##x"]
 
 
 def chr_names(rng):
